@@ -3,9 +3,9 @@ VIEW view
 CONSTANTS
   OffsMod = 65536
   Kind = "nameaddr"
-  Atoms <- AtomsStruct
+  Atoms <- AtomsAllH
   Prefix <- PfxNone
-  MaxLen = 3
+  MaxLen = 4
   Cfgs <- CfgsNA
   Junk = 34
   EmitOn = TRUE
